@@ -25,7 +25,10 @@ ASSUMPTIONS = ["SystemExit / GeneratorExit are outside the quantifier; KeyboardI
                "with -q / --quiet on the line the report is rendered to a quiet io and nothing is printed (the switch's meaning, C09): "
                "'printed error report' is demanded of the runs whose io is not quiet; a failing io factory is reported on the "
                "preliminary io, which no switch silences",
-               "lines carrying a help or version switch are C09's; the lines here have none"]
+               "lines carrying a help or version switch are C09's; the lines here have none",
+               "terminate_after_run is off (with it on, run() ends in sys.exit(status) by design); an exception whose __str__ itself "
+               "raises has no message to report and is outside the quantifier; non-ASCII decimal digits in a returned string "
+               "(int() accepts them, Model/Conv.v int_of_str does not) are not generated"]
 
 RETS = [None, False, 0, -3, 300, True, "12", " 7 ", "abc", "", 2.7, 0.3, 0.0, "nan", "inf", [], [0], "OBJ", 255, 256, 1, -1, "0", "-0",
         "2.7", "1e2", -0.5, "1_0", "+5"]
